@@ -218,6 +218,16 @@ fn case_calculators(t: &mut Tape, info: &mut CaseInfo) -> Result<(), String> {
     }
     let explicit = src.clone().convert(c.target, &c.dspec.mods.build(c.target)).map_err(|e| e.to_string())?;
     let b = explicit.attributes().difficulty(&c.d);
+    // a builder that has already been evaluated and is then pointed at a map must behave like one that was not
+    {
+        let fresh = BeatmapAttributesBuilder::new().difficulty(&c.d).map(&explicit);
+        let used = BeatmapAttributesBuilder::new().difficulty(&c.d);
+        let _ = (used.build(), used.hit_windows());
+        let reused = used.map(&explicit);
+        same("builder evaluated before map(&m) vs builder not evaluated before: build()", &reused.build(), &fresh.build())?;
+        same("builder evaluated before map(&m) vs builder not evaluated before: hit_windows()", &reused.hit_windows(), &fresh.hit_windows())?;
+        info.comparisons += 2;
+    }
     // every way of handing the map to the builder
     {
         let b5 = BeatmapAttributesBuilder::from(&explicit).difficulty(&c.d);
